@@ -150,7 +150,8 @@ func runC12(c *core.Ctx) {
 					args = append(args, a)
 				}
 				c.Eval(1)
-				return srv.App1(args, nil)
+				// the same spelling for the whole and its parts
+				return srv.App1(respell(c.Rng("spell", i*31+len(cmd)), args), nil)
 			}
 			for _, cmd := range perDay {
 				pre, suf, whole := runOn("pre.yaml", cmd), runOn("suf.yaml", cmd), runOn("whole.yaml", cmd)
